@@ -37,10 +37,7 @@ class build_lock:
         self.f.close()
 
 
-def run_model(stream: str, cases: list[list[str]], timeout=600) -> list[list[str]] | None:
-    """run the compiled Lean model on a batch of cases; one output line per input line."""
-    if not os.path.exists(MODEL_EXE):
-        return None
+def _run_model_chunk(stream, cases, timeout):
     inp = []
     for c in cases:
         inp.extend(c)
@@ -57,6 +54,20 @@ def run_model(stream: str, cases: list[list[str]], timeout=600) -> list[list[str
         elif line != "" or cur:
             cur.append(line)
     return out
+
+
+def run_model(stream: str, cases: list[list[str]], timeout=1800) -> list[list[str]] | None:
+    """run the compiled Lean model on a batch of cases (one output line per input line), in NPROC parallel chunks."""
+    if not os.path.exists(MODEL_EXE):
+        return None
+    if len(cases) < 64:
+        return _run_model_chunk(stream, cases, timeout)
+    from concurrent.futures import ThreadPoolExecutor
+    k = max(1, (len(cases) + NPROC - 1) // NPROC)
+    chunks = [cases[i:i + k] for i in range(0, len(cases), k)]
+    with ThreadPoolExecutor(len(chunks)) as ex:
+        parts = list(ex.map(lambda ch: _run_model_chunk(stream, ch, timeout), chunks))
+    return [o for part in parts for o in part]
 
 
 def ddmin(items: list, test, keep_prefix: int = 0, max_tests: int = 400) -> list:
